@@ -124,6 +124,17 @@ def identity(value):
 NestedArg = namedtuple("NestedArg", "key val")
 
 
+def nested_arg_as_option(nested_arg: NestedArg) -> str:
+    """Command line option that hands a nested argument down to a sub-parser."""
+    val = nested_arg.val
+    if not isinstance(val, str):  # already loaded: render so that it loads back equal, str(None) is not null
+        try:
+            val = json_compact_dump(val)
+        except TypeError:
+            val = str(val)
+    return f"--{nested_arg.key}={val}"
+
+
 def parse_value_or_config(
     value: Any, enable_path: bool = True, simple_types: bool = False
 ) -> Tuple[Any, Optional["Path"]]:
